@@ -147,7 +147,7 @@ def run(ctx):
 
 MANIFEST = {
     "category": "other",
-    "technique": "panic-site reachability over the workspace call graph (MIR Assert terminators, unwrap/expect, panicking macros) with guard discharge and a frozen triage table",
-    "text": "Partial: decides only the never-panic clause of C08 for the SQLite log/operation store entry points, over all paths of the Rust code. Agreement with the reference model is SQL semantics and is not decided.",
+    "technique": "panic-site reachability over the workspace call graph (MIR Assert terminators, unwrap/expect, panicking macros) with guard discharge and a frozen triage table; decision table (abstract interpretation up to the first await) of the operator/bound selection of every ranged log query with sibling agreement",
+    "text": "Partial: decides the never-panic clause for the SQLite log/operation store entry points over all paths of the Rust code, and the Rust-side translation of (after, until) into the SQL range of every ranged query. The SQL text evaluated by SQLite is not decided.",
     "note": "Trusted: rustc MIR (overflow checks as in debug builds), driver, rule engine; external crates (sqlx, ciborium) are not searched for panics.",
 }
